@@ -16,7 +16,7 @@ pub fn run_c02(cfg: &Cfg, log: &mut Log) {
             continue;
         }
         let class = ty_class(&rc.ty);
-        for v in values(&rc, cfg.seed, nvals) {
+        for v in values(&rc, cfg.seed, nvals).into_iter().chain(big_values(&rc)) {
             log.begin(rc.name);
             log.count("evaluations", 1);
             let bytes = match ser_plain(&rc, &v) {
@@ -71,7 +71,7 @@ pub fn run_c03(cfg: &Cfg, log: &mut Log) {
             continue;
         }
         let class = ty_class(&rc.ty);
-        for v in values(&rc, cfg.seed, nvals) {
+        for v in values(&rc, cfg.seed, nvals).into_iter().chain(big_values(&rc)) {
             log.begin(rc.name);
             log.count("evaluations", 1);
             // serialise through the recorder: where did the real writer put each block?
